@@ -375,7 +375,7 @@ def gen_case_c04(rng):
     keys = rng.sample(pool, min(len(pool), rng.choice([2, 3, 5])))
     longk = [k for k in pool if isinstance(k, str) and len(k) > 200]
     if len(longk) >= 2 and rng.random() < 0.3:
-        keys = [k for k in keys if k not in longk] + longk[:2]     # two long keys that differ only at the very end
+        keys = [k for k in keys if k not in longk] + (longk[2:4] if (len(longk) >= 4 and rng.random() < 0.5) else longk[:2])     # two long keys that differ only at the very end
     u = archmon.Uniq()
     ops = []
     rapid = rng.random() < 0.4       # same-size rewrites in quick succession
@@ -615,6 +615,10 @@ def gen_cells_c17(rng, n, with_backend=False, codecs=False):
             # (a directory archive names 1, 1.0 and True apart although they are one key in memory - recorded C03
             # finding; sessions are judged on values that do not collide that way)
             pool = [v for v in pool if not (type(v) in (float, bool) and v in (1.0, 2.0, True))]
+            if rng.random() < 0.2:
+                # a long text argument: entry names close to (on a directory archive: possibly beyond) the file
+                # system's 255-byte limit
+                pool = pool + ['M' * rng.choice([200, 225, 232, 238, 244])] * 3
         calls = []
         for _ in range(6):
             asg = keymon.assignment(rng, spec, pool)
@@ -643,11 +647,37 @@ def gen_cells_c17(rng, n, with_backend=False, codecs=False):
             cell['backend'] = b
             cell['maxsize'] = rng.choice([1, 2, 3, 8])
             cell['purge'] = rng.random() < 0.4
-            if b['kind'] == 'dir':
-                # one call per dir_archive entry name (its aliasing is a recorded C03 finding)
-                pass
+            if b['kind'] == 'dir' and rng.random() < 0.6:
+                _fit_long_names(cell, rng.choice([244, 249, 253, 255]))
         cells.append(cell)
     return cells
+
+
+def _fit_long_names(cell, target):
+    """stretch / shrink the long text argument of a call so that its directory entry name ('K_' + key) is exactly
+    `target` bytes long: just below - or at - the 255-byte limit of a file name, where names still work"""
+    try:
+        from kv import keymon
+        from kv.cachemon import dir_fname
+        tgt = keymon.Target(cell['spec'], 'func')
+        f = tgt.decorate(keymon.make_deco({'keymap': cell['keymap'], 'deco': 'inf', 'safe': False, 'ignore': cell.get('ignore')}))
+
+        def name_len(call):
+            return len(('K_' + dir_fname(f.key(*dec(call[0]), **dec(call[1])))).encode('utf-8'))
+        for call in cell['calls']:
+            spots = [('a', i) for i, v in enumerate(call[0]) if isinstance(v, str) and v.startswith('MMMM')] + \
+                    [('k', n) for n, v in call[1].items() if isinstance(v, str) and v.startswith('MMMM')]
+            if len(spots) != 1:
+                continue
+            where, at = spots[0]
+            box = call[0] if where == 'a' else call[1]
+            for _ in range(3):
+                d = target - name_len(call)
+                if d == 0 or len(box[at]) + d < 8:
+                    break
+                box[at] = 'M' * (len(box[at]) + d)
+    except Exception:
+        pass
 
 
 def order_mech(cell, call, order_a, order_b):
